@@ -148,6 +148,26 @@ func bip340Body(tal *tally) func(*engine.X) {
 		add("s/neg", mk(sg.R, sg.S.Neg()), pk, pkBytes, msg)
 		add("s/plus1", mk(sg.R, sg.S.Add(sf.One())), pk, pkBytes, msg)
 		add("s/zero", mk(sg.R, sf.Zero()), pk, pkBytes, msg)
+		{
+			// the "twin" response for the nonce -k: s' = 2*e*d - s satisfies s'G - eP = -R, i.e. the right abscissa with an
+			// odd ordinate. Only the even-y rule of BIP-340 rejects it (computed here from the known secret key).
+			n := C.Q
+			dAdj := new(big.Int).Set(d)
+			if pkRef.Y.Bit(0) == 1 {
+				dAdj.Sub(n, d)
+			}
+			e := sig.BIP340Challenge(new(big.Int).SetBytes(ser[:32]), pkRef.X, msg)
+			s2 := new(big.Int).Mul(e, dAdj)
+			s2.Lsh(s2, 1).Sub(s2, new(big.Int).SetBytes(ser[32:])).Mod(s2, n)
+			enc := append(append([]byte{}, ser[:32]...), be32(s2)...)
+			a := alt{label: "s/odd-R-twin", pk: pk, pkX: pkBytes, enc: enc, msg: msg}
+			if s2t, err := bip340.NewSignatureFromBytes(enc); err != nil {
+				a.why = "NewSignatureFromBytes: " + errStr(err)
+			} else {
+				a.sig = s2t
+			}
+			alts = append(alts, a)
+		}
 		// keys
 		negPk, err := bip340.NewPublicKey(pk.Value().Neg())
 		if err != nil {
@@ -164,7 +184,7 @@ func bip340Body(tal *tally) func(*engine.X) {
 			x.Failf("bip340/key/identity-constructible", "%s: NewPublicKey accepted the identity", id)
 		}
 		add("key/identity(struct)", sg, bipPkStruct(k256.NewCurve().OpIdentity()), nil, msg)
-		for _, ma := range messageAlterations(msg, 0) {
+		for _, ma := range messageAlterations(msg, 0, engine.Thorough()) {
 			add(ma.label, sg, pk, pkBytes, ma.msg)
 		}
 
